@@ -70,21 +70,6 @@ func c09Step(st *memStore, opt int) {
 	}
 }
 
-// refClearCase removes everything a case may hold (recursively through nested choices).
-func refClearCase(t *memTree, cs *meta.ChoiceCase) {
-	for _, d := range cs.DataDefinitions() {
-		if ch, ok := d.(*meta.Choice); ok {
-			for _, id := range ch.CaseIdents() {
-				refClearCase(t, ch.Cases()[id])
-			}
-			continue
-		}
-		delete(t.leaves, d.Ident())
-		delete(t.kids, d.Ident())
-		delete(t.lists, d.Ident())
-	}
-}
-
 // refChoices applies the choice rule for source tree S onto T for the
 // definitions of md (a container or case): for every choice, if S holds data
 // of a case, all other cases are cleared in T.
@@ -196,6 +181,7 @@ func H_C09_choice_sequence(s any) {
 }
 
 // one upsert switches the case in two entries of the same list
+//
 //vp:setup S_c09
 func H_C09_choice_two_entries(s any) {
 	m := s.(*meta.Module)
@@ -231,6 +217,7 @@ func H_C09_choice_two_entries(s any) {
 }
 
 // choice inside a list entry
+//
 //vp:setup S_c09
 func H_C09_choice_in_list(s any) {
 	m := s.(*meta.Module)
